@@ -178,6 +178,9 @@ type runOut struct {
 }
 
 // traced runs the victim on dir under the tracer.
+// tracedAfter is handed to the victim as VERIF_EC_AFTER (what it does after the operation: "", "retry", "close").
+var tracedAfter string
+
 func traced(dir string, blocks int, vop string, extra ...string) (*runOut, error) {
 	self, err := os.Executable()
 	if err != nil {
@@ -187,6 +190,7 @@ func traced(dir string, blocks int, vop string, extra ...string) (*runOut, error
 	args := append([]string{"--dir", dir, "--log", logp}, extra...)
 	args = append(args, "--", self, "victim", dir, strconv.Itoa(blocks), vop)
 	cmd := exec.Command(fstracePath(), args...)
+	cmd.Env = append(os.Environ(), "VERIF_EC_AFTER="+tracedAfter)
 	var so, se bytes.Buffer
 	cmd.Stdout, cmd.Stderr = &so, &se
 	done := make(chan error, 1)
@@ -431,7 +435,7 @@ func (x *jobCtx) finding(kind string, k int, errno string, v *verdict, what stri
 	x.res.Findings = append(x.res.Findings, Finding{Pair: x.job.Pair, Kind: kind, K: k, Errno: errno, Oracle: v.oracle, Signature: sig, What: what, Detail: v.detail})
 }
 
-var callSiteOracle = map[string]bool{"failure-reported-but-effect-in-place": true, "success-after-failed-flush": true}
+var callSiteOracle = map[string]bool{"failure-reported-but-effect-in-place": true, "success-after-failed-flush": true, "after-failure-then-close:failure-reported-but-effect-in-place": true}
 
 // RunJob executes one job in this process (pre-state and recoveries in-process, victims as traced child processes).
 func RunJob(job *Job, verbose bool) (res *Result) {
@@ -855,6 +859,50 @@ func (x *jobCtx) failOne(k int, en string) error {
 		}
 		x.finding("fail", k, en, v, what)
 		return nil
+	}
+	if mode == "old" && en == "EIO" && x.job.Op != "Close" {
+		// The operation reported the failure and left the directory intact - but the process is still alive.  What its
+		// memory holds shows in what it does next: (a) an orderly close must still leave the old state (nothing of the
+		// refused operation may have stayed in memory); (b) the same request issued again, if it now reports success,
+		// must have its complete effect on disk when the process dies right afterwards.
+		afters := []string{"close", "retry"}
+		if strings.HasPrefix(x.job.Op, "W:") || strings.HasPrefix(x.job.Op, "WWO:") {
+			// a replica that failed a write is detached and rebuilt: nobody re-issues the write on it (and what a block
+			// holds after a failed write is not defined)
+			afters = []string{"close"}
+		}
+		for _, after := range afters {
+			d2, err := x.fresh("fail-" + after)
+			if err != nil {
+				return err
+			}
+			tracedAfter = after
+			o2, err := traced(d2, x.job.Blocks, x.vop, "--fail", strconv.Itoa(k), strconv.Itoa(code))
+			tracedAfter = ""
+			x.res.VictimRuns++
+			if err != nil {
+				os.RemoveAll(d2)
+				return fmt.Errorf("fail run #%d %s (+%s): %v", k, en, after, err)
+			}
+			if !o2.rep.AfterDone || o2.rep.Fatal != "" || o2.rep.Panic != "" {
+				os.RemoveAll(d2)
+				continue
+			}
+			var v2 *verdict
+			switch {
+			case after == "close":
+				v2 = x.e.check(d2, "old", &x.st)
+			case o2.rep.AfterErr == "":
+				v2 = x.e.check(d2, "new", &x.st)
+			}
+			os.RemoveAll(d2)
+			if v2 != nil {
+				v2.oracle = "after-failure-then-" + after + ":" + v2.oracle
+				v2.detail = outcome + "; then the caller issued " + map[string]string{"close": "an orderly close (which succeeded? " + fmt.Sprint(o2.rep.AfterErr == "") + ")", "retry": "the same request again, which reported success"}[after] + "; " + v2.detail
+				x.finding("fail", k, en, v2, what)
+				return nil
+			}
+		}
 	}
 	// a flush that failed and was not repeated cannot have made the operation's updates durable
 	if mode == "new" && (c.Sys == "fsync" || c.Sys == "fdatasync") {
